@@ -2,6 +2,7 @@ import Refine.Lemmas.ReconParHess
 import Refine.Lemmas.ReconParKexact
 import Refine.Lemmas.ReconParCounter
 import Refine.Lemmas.ReconParCells
+import Refine.Lemmas.ReconParSigned
 import Refine.Props.C19
 import Refine.Props.C19Kexact
 
@@ -28,7 +29,7 @@ import Refine.Props.C19Kexact
 namespace Refine.Props.C19Par
 open Refine Refine.Model.Geom Refine.Model.Recon Refine.Model.ReconPar Refine.ScalarReal Refine.GeomReal
 open Refine.ReconReal Refine.ReconParGhost Refine.ReconParMesh Refine.ReconParHess Refine.ReconParKexact
-open Refine.ReconParCounter Refine.ReconParCells
+open Refine.ReconParCounter Refine.ReconParCells Refine.ReconParExtrap Refine.ReconParSigned
 open Refine.Model.Comm (World RefType)
 open Refine.Model.Kexact (Item KSt grow kexactNode kexactWithAux layerLoop)
 
@@ -133,6 +134,33 @@ theorem l2hessian_linear_zero_par_2d (gxyz : List (V3 ℝ)) (gs : List ℝ) (gce
   have hk' : k < gxyz.length := hw.inRange r hr k hk
   simp [List.getD_eq_getElem?_getD, List.getElem?_replicate, hk', z6]
 
+/-! ### the boundary replacement (`ref_recon_signed_hessian`, L2 branch) -/
+
+/-- `ref_recon_extrapolate_zeroth` on a distributed mesh, any `ldim ≤ 6`, any input arrays of the right shape, any
+    number of passes: the call completes (every refresh of `replace` and `recon` goes through) and a vertex that its
+    OWNER does not flag (`Keep`: the owner's `replace` row at entry is all false) is never touched — every stored copy,
+    owned or ghost, ends unflagged and with the owner's row at entry (`Good`) -/
+theorem extrapolate_zeroth_keeps_unflagged (w : World Rank) (hw : WorldOK w) (ldim : Nat) (hl : ldim ≤ 6)
+    (recon0 : World (List (List ℝ))) (replace0 : World (List (List Bool)))
+    (hR0 : RowsOK ldim w recon0) (hP0 : RowsOK ldim w replace0) :
+    ∃ R' P', extrapolateZeroth w ldim recon0 replace0 = some (R', P') ∧ Good w ldim recon0 replace0 R' P' :=
+  extrapolateZeroth_keeps w hw ldim hl recon0 replace0 hR0 hP0
+
+/-- **away from the boundary-extrapolation layer `ref_recon_signed_hessian(.., REF_RECON_L2PROJECTION)` is partition
+    independent**: on every world satisfying `DistOK` the call completes, and every stored copy — owned or ghost — of
+    every vertex that its owner does not flag for replacement (mask of the stored boundary faces / segments after the
+    orphan filter, `replaceMask`) holds the serial L2 Hessian of the global mesh at that vertex.  (The flagged
+    vertices — the boundary layer — receive in-place averages that depend on the local numbering and on the
+    partition: tied bit for bit, excluded by the property.) -/
+theorem signed_hessian_interior_partition_independent (twod : Bool) (gxyz : List (V3 ℝ)) (gs : List ℝ)
+    (gcells : List Cell) (w : World Rank) (hw : DistOK twod gxyz.length gcells w) (s : World (List ℝ))
+    (hs : Consistent 0 w s gs) :
+    ∃ out, signedHessianL2Par twod gxyz w s = some out ∧
+      ∀ (me : Nat) (r : Rank) (i p : Nat), w[me]? = some r → r.part[i]? = some p →
+        Keep w (w.map (replaceMask twod 6)) 6 me i →
+        (out.getD me []).getD i z6 = (l2hessian twod gxyz gs gcells).getD (gOf r.l2g i) z6 :=
+  signedHessianL2Par_interior twod gxyz gs gcells w hw s hs
+
 /-! ### k-exact clouds
 
   FULL STATEMENT (`kexact_cloud_partition_independent`, NOT proved in full): on a world satisfying `DistOK` (with
@@ -212,5 +240,24 @@ example (gxyz : List (V3 ℝ)) (h : gxyz.length = 5) (gs : List ℝ) :
     l2hessianPar false gxyz exWorld3 (exWorld3.map fun r => r.restrict 0 gs) =
       some (exWorld3.map fun r => r.restrict z6 (l2hessian false gxyz gs cCells)) :=
   l2hessian_partition_independent false gxyz gs cCells exWorld3 (h ▸ exWorld3_ok) _ rfl
+
+/-- `Keep` is met: the example worlds store no boundary triangle, so no vertex is flagged and every stored entry is
+    kept (e.g. the ghost copy of `v1` on rank 0, owned by rank 1) -/
+example : Keep exWorld3 (exWorld3.map (replaceMask false 6)) 6 0 1 := by
+  intro r p hr hp
+  obtain rfl : exRank0 = r := by simpa [exWorld3] using hr
+  obtain rfl : 1 = p := by simpa [exRank0] using hp
+  refine ⟨fun h => absurd h (by decide), fun _ ro j hro hj _ => ?_⟩
+  obtain rfl : exRank1 = ro := by simpa [exWorld3] using hro
+  have hj' : j = 0 := by
+    match j, hj with
+    | 0, _ => rfl
+    | 1, hj => simp [exRank0, exRank1] at hj
+    | 2, hj => simp [exRank0, exRank1] at hj
+    | 3, hj => simp [exRank0, exRank1] at hj
+    | 4, hj => simp [exRank0, exRank1] at hj
+    | k + 5, hj => simp [exRank0, exRank1] at hj
+  subst hj'
+  decide
 
 end Refine.Props.C19Par
